@@ -685,6 +685,11 @@ var fixedDocs = []string{
 	`<D:prop xmlns:D="DAV:"><D:resourcetype><D:collection/></D:resourcetype><x:dead xmlns:x="urn:x" x:a="1">v<x:in/>w</x:dead></D:prop>`,
 	`<a xmlns:unused="urn:u"><b xmlns:unused="urn:v"/></a>`,
 	`<a><b><c><d><e><f><g><h>deep</h></g></f></e></d></c></b></a>`,
+	// namespace names that are spelled like prefixes in use
+	`<a:x xmlns:a="b" xmlns:b="c"><a:y a:k="1"/><b:z/></a:x>`,
+	`<x xmlns="b" xmlns:b="c"><y/></x>`,
+	`<a:x xmlns:a="b"><q xmlns:b="c"><a:y/></q></a:x>`,
+	`<a:x xmlns:a="b" xmlns:b="b"><a:y b:k="1"/></a:x>`,
 }
 
 func c15Run(c *fw.Ctx) {
@@ -717,6 +722,10 @@ func c15Run(c *fw.Ctx) {
 			execReuse(c, cs, trees)
 		case k < 11:
 			t := genTree(r)
+			if r.Intn(8) == 0 {
+				spellLikePrefixes(r, t)
+				c.Observe("universe", "random trees whose namespace names are spelled like the prefixes the serialiser uses", 1)
+			}
 			exec(c, c15Case{Kind: "tree", Doc: string(renderDoc(r, t))}, t)
 			c.Observe("universe", "random trees", 1)
 		case k < 16:
@@ -773,7 +782,7 @@ func init() {
 			"(assignment, slice append, pointer dereference) with the next document having fewer, as many and more children; every kept copy is observed at copy time and again at the end (token stream, Marshal output, Decode results must not change). " +
 			"distinct_nontrivial counts distinct (case kind, typed element or child count, set of namespace/lexical features present, depth).",
 		Assumptions: []string{
-			"namespace names contain ':' (URIs): a namespace name equal to an in-scope prefix would be translated a second time by encoding/xml's token decoder",
+			"namespace names contain ':' except in one family, whose namespace names are spelled like the prefixes the documents declare (feature namespace-spelled-like-bound-prefix); the namespace names \"xml\" and \"xmlns\" are never used",
 			"the re-reader is encoding/xml (as the property prescribes): attributes it reports in the pseudo-namespace \"xmlns\" (the encoder writes captured declarations as _xmlns:p=…) and repeated xmlns attributes are namespace-declaration artefacts, counted in the evidence, not compared",
 			"processing instructions are not named by the statement: present in the workload, not compared",
 			"DecodeProp is compared only for properties under a 200 propstat of a response without response-level status (status semantics belong to C14)",
